@@ -871,6 +871,42 @@ def violations(rng, schema, pop, per_class=1, string_delims=False, missing_elem=
         nv = ("aggr", [("ref", free_id + 9)] + list(v[1][1:]))
         out.append(Violation("dangling_reference_in_aggregate", pop[ii].id, replaced(ii, _set_val(pop[ii], pi, ai, nv)),
                              where(pop[ii], pi, ai, a)))
+    # a dangling or malformed reference at every reference-bearing position: entity attribute, select (also nested in a
+    # select), element of an aggregate of entities / of selects, in simple and complex instances.  (Aggregates of
+    # aggregates are kept as raw text by SCLundefined: references inside them are never looked up - not claimed.)
+    def ref_paths(v, path=()):
+        if v[0] == "ref":
+            yield path
+        elif v[0] == "aggr":
+            for j, x in enumerate(v[1]):
+                yield from ref_paths(x, path + (("aggr", j),))
+        elif v[0] == "typed":
+            yield from ref_paths(v[2], path + (("typed",),))
+
+    def put(v, path, new):
+        if not path:
+            return new
+        if path[0][0] == "aggr":
+            return ("aggr", [put(x, path[1:], new) if j == path[0][1] else x for j, x in enumerate(v[1])])
+        return ("typed", v[1], put(v[2], path[1:], new))
+
+    rp = {}
+    for ii, inst in enumerate(pop):
+        for pi, (n, vs) in enumerate(inst.parts):
+            for ai, (a, v) in enumerate(zip(G.part_attrs(schema, inst, pi), vs)):
+                if a.kind.startswith("AGG2") or a.kind.startswith("AGG3") or a.kind == "AGG_AGG":
+                    continue
+                for path in ref_paths(v):
+                    shape = "".join("[]" if st[0] == "aggr" else "()" for st in path)
+                    rp.setdefault((a.kind, shape, inst.is_complex), []).append((ii, pi, ai, a, path))
+    BAD_REFS = [("ref", free_id + 11), ("tok", "#"), ("tok", "#x"), ("tok", "#-4"), ("tok", "#99999999999")]
+    for k, ((kind, shape, cx), lst) in enumerate(sorted(rp.items(), key=lambda kv: (kv[0][0], kv[0][1], kv[0][2]))):
+        for (ii, pi, ai, a, path) in rng.sample(lst, min(len(lst), per_class)):
+            bad = BAD_REFS[0] if rng.random() < 0.6 else rng.choice(BAD_REFS[1:])
+            nv = put(pop[ii].parts[pi][1][ai], path, bad)
+            what = "dangling" if bad[0] == "ref" else "malformed:" + bad[1]
+            out.append(Violation("bad_reference_at_" + ("select" if ("SEL" in kind) else "entity"), pop[ii].id,
+                                 replaced(ii, _set_val(pop[ii], pi, ai, nv)), where(pop[ii], pi, ai, a) + f":{kind}{shape}:{what}"))
     # SELECT value outside the select list
     for (ii, pi, ai, a) in positions(lambda a, v, i: a.kind == "SELECT_M" and v[0] != "null"):
         out.append(Violation("select_outside_list", pop[ii].id,
